@@ -238,7 +238,7 @@ def describe(P, nodes, edges, root, now, disc, passes):
 
 class Driver:
     def __init__(self):
-        self.p = subprocess.Popen([DRIVER], stdin=subprocess.PIPE, stdout=subprocess.PIPE, text=True, bufsize=1)
+        self.p = subprocess.Popen([DRIVER], stdin=subprocess.PIPE, stdout=subprocess.PIPE, text=True, bufsize=1, cwd=os.path.dirname(DRIVER))  # the library writes a timing csv into its cwd
 
     def send(self, lines, until):
         self.p.stdin.write("\n".join(lines) + "\n")
